@@ -225,7 +225,9 @@ def h_timestamp(env):
 
 
 BOUNDARY_TD = [0, 1, -1, 999999, 10**6, -(10**6), -1500000, 1500000, 2**53, 2**53 + 1, -(2**53) - 1, 69089390592999996, DUR_MAX_US, -DUR_MAX_US, DUR_MAX_US - 1, 1000, 123000, -123456,
-               7, 50, 5000, -5000, 90000, 1001000, 10**6 + 1, -999999, 3600 * 10**6, 86400 * 10**6 + 10]
+               7, 50, 5000, -5000, 90000, 1001000, 10**6 + 1, -999999, 3600 * 10**6, 86400 * 10**6 + 10,
+               # one representative per decimal digit class of the microsecond part (10**k, 9*10**k, mixed)
+               10, 100, 10**4, 10**5, 9, 90, 900, 9000, 900000, 123400, 120000, 100100, 999900, 999990, -100, -123400, 2 * 10**6 + 100]
 
 
 def h_duration_boundaries(env):
@@ -241,6 +243,8 @@ BOUNDARY_TS = [  # (local clock us since 0001-01-01, offset minutes)
     (EPOCH_US + 1577836800 * US_PER_SEC + 123000, 330), (EPOCH_US + 1577836800 * US_PER_SEC + 123456, -210),
     (EPOCH_US + 7, 0), (EPOCH_US + 50, 0), (EPOCH_US + 5000, 0), (EPOCH_US + 90000, 0), (EPOCH_US + 1001000, 0), (EPOCH_US - 5000, 0), (EPOCH_US - 999950, 0),
     (EPOCH_US + 951782400 * US_PER_SEC, 0), (EPOCH_US + 4107542400 * US_PER_SEC + 1, 60),
+] + [(EPOCH_US + 1577836800 * US_PER_SEC + f, 0) for f in (10, 100, 1000, 10**4, 10**5, 9, 90, 900, 9000, 900000, 123400, 120000, 100100, 999900, 999990)] + [
+    (EPOCH_US - 2 * US_PER_SEC + 100, 0), (EPOCH_US - 2 * US_PER_SEC + 123400, 120),
 ]  # fmt: skip
 
 
